@@ -25,14 +25,17 @@ fn valid(c: &C) -> bool { c.qs.iter().all(|q| q.0 < q.1) && c.h.all_intervals().
 
 fn exec(t: &[String]) -> Option<String> {
     let c = dec(t)?;
-    let l = c.h.build();
+    // the coordinate type of the instantiation is the case's flavour (u64 when the case does not fit the type)
+    let qc: Vec<u64> = c.qs.iter().flat_map(|q| [q.0, q.1]).collect();
+    let l = AnyLapper::build(&c.h, split_flavour(t).1, &qc);
     let mut w = W::new();
     w.n(c.qs.len());
-    for (s, e) in &c.qs { w.n(l.count(*s, *e)).n(drain_mode(l.find(*s, *e), next_mode()).len()); }
+    for (s, e) in &c.qs { w.n(l.count(*s, *e)).n(l.find(*s, *e).len()); }
     Some(w.join())
 }
 
-fn shrink(t: &[String]) -> Vec<Vec<String>> {
+fn shrink(t: &[String]) -> Vec<Vec<String>> { shrink_flavoured(t, shrink0) }
+fn shrink0(t: &[String]) -> Vec<Vec<String>> {
     let Some(c) = dec(t) else { return vec![] };
     let mut out = vec![];
     for qs in shrink_vec(&c.qs) { if !qs.is_empty() { out.push(C { h: c.h.clone(), qs }); } }
@@ -93,6 +96,14 @@ fn gen(rng: &mut Rng, tier: Tier) -> Vec<Case> {
         }
         if qs.is_empty() { qs.push((base, base + 1)); }
         out.push(Case::new("random", enc(&C { h, qs })));
+    }
+    // coordinate-type flavours: every generated (non-exhaustive) case is, half of the time, run over another instantiation of
+    // `Lapper<I, _>`; for the narrow types a far-away interval is added so that the set spans more than half of the type's range
+    for c in out.iter_mut() {
+        if c.stream == "exhaustive" { continue; }
+        let ty = gen_ltype(rng);
+        if ty == 0 { continue; }
+        if let Some(mut d) = dec(&c.input) { if rng.chance(1, 2) { spread_for_type(rng, &mut d.h, ty, true); } c.input = push_flavour(enc(&d), ty); }
     }
     out
 }
